@@ -660,7 +660,9 @@ impl<'fd, B: BufSlice<N>, const N: usize> WriteAllVectored<'fd, B, N> {
                     }
                 }
 
-                if iovecs[N - 1].len() == 0 {
+                // NOTE: can't only check the last buffer, it might be empty while
+                // an earlier buffer isn't fully written yet.
+                if iovecs.iter().all(|iovec| iovec.len() == 0) {
                     // Written everything.
                     return Poll::Ready(Ok(bufs));
                 }
